@@ -1,6 +1,7 @@
 import DcVerif.Lemmas.Ring
 import DcVerif.Lemmas.RingMulti
 import DcVerif.Lemmas.RingPay
+import DcVerif.Lemmas.RingMultiSafe
 /-!
 # C04 — every published event is delivered exactly once, in order (single-producer pipelines)
 
@@ -196,7 +197,9 @@ end Payload
 /-! ## multi-producer pipelines
 
 The full delivery statement is false for the multi-producer sequencer (known finding F8); the consumer-side half
-(`c04_multi_log_is_prefix`: in order, no gaps, no repetition, nothing above the cursor) holds for every schedule. The witness below is schedule-exact and agrees with what the real code does under the same schedule (harness corpus case
+(`c04_multi_log_is_prefix`: in order, no gaps, no repetition, nothing above the cursor) holds for every schedule, and so does
+**no read before write** (`c04_multi_handle_only_published`, every ring size `n = 2^k`: a handler is only ever handed a sequence
+that its claimant has completely written and published). The witness below is schedule-exact and agrees with what the real code does under the same schedule (harness corpus case
 `F7-witness`): two writers claim 1 and 2, the second publishes first, the first publishes last; `drain` waits for the cursor
 (1) only, so the handler terminates having been handed `[1]` although 2 was written and its `write` call had returned. -/
 section Multi
@@ -216,6 +219,41 @@ theorem c04_multi_log_is_prefix {x : MSt} (hr : MReachableWF x) (k j : Nat) (hk 
 theorem c04_multi_stranded_event_lost :
     (lostRun.wr 0).pc = .done ∧ (lostRun.wr 1).pc = .done ∧ lostRun.dr.pc = .done ∧ (lostRun.s.cons 0 0).pc = .done ∧
     lostRun.written = [(2, 1), (1, 0)] ∧ (lostRun.s.cons 0 0).log = [1] := by decide +kernel
+
+/-- **no read before write, multi producer** (every ring size `n = 2^k`, topology, wait strategy, number of writer threads,
+every schedule): a handler is about to be invoked for `i` only if `i ≤ cursor`, `i` has been claimed and written to its slot
+(`(i, writer) ∈ written`), and no writer thread is still before the `ready_sequences.set(i)` of its `publish` call — the
+multi-producer analogue of `c04_handle_only_published`, from release safety (`Lemmas/RingMultiSafe.lean`) -/
+theorem c04_multi_handle_only_published {x : MSt} (hr : MReachableWF x) (e : Nat) (hn : x.s.n = 2 ^ e) (k j : Nat)
+    (hk : k < x.s.K) (hj : j < x.s.h k) (hpc : (x.s.cons k j).pc = .handle)
+    (hi : (x.s.cons k j).i ≤ (x.s.cons k j).avail) :
+    (x.s.cons k j).i ≤ x.s.cursor ∧ (x.s.cons k j).i ≤ x.hw ∧ (∃ w, ((x.s.cons k j).i, w) ∈ x.written) ∧
+    ¬ Pend x (x.s.cons k j).i := by
+  have hs := mreachableWF_safe hr e hn
+  have hI := hs.1.1.2.1
+  have hav := avail_le_cursor x.s hI k j hk hj (by simp [hpc])
+  have hci := hI.2 k j hk hj
+  have h1 := hci.nextEq (by simp [hpc])
+  have h2 := hci.iGe hpc
+  have := published_below_cursor x hs (x.s.cons k j).i (by omega) (by omega)
+  exact ⟨by omega, this⟩
+
+/-- everything in a handler's log has been written (and published) before it was handed over -/
+theorem c04_multi_log_written {x : MSt} (hr : MReachableWF x) (e : Nat) (hn : x.s.n = 2 ^ e) (k j : Nat)
+    (hk : k < x.s.K) (hj : j < x.s.h k) (q : Nat) (hq : q ∈ (x.s.cons k j).log) : ∃ w, (q, w) ∈ x.written := by
+  have hs := mreachableWF_safe hr e hn
+  obtain ⟨hlog, hle⟩ := c04_multi_log_is_prefix hr k j hk hj
+  rw [hlog, List.mem_range'_1] at hq
+  exact (published_below_cursor x hs q hq.1 (by omega)).2.1
+
+/-- non-vacuity: the handler is about to be handed sequence 1, written by writer 0 -/
+def demoMultiHandle : MSt := runM (mkM 4 1 (fun _ => 1) false [[1], [1]])
+  ((List.replicate 30 (MTid.writer 0)) ++ (List.replicate 4 (MTid.cons 0 0)))
+
+example : (demoMultiHandle.s.cons 0 0).pc = .handle ∧ (demoMultiHandle.s.cons 0 0).i = 1 ∧
+    (demoMultiHandle.s.cons 0 0).avail = 1 ∧ demoMultiHandle.written = [(1, 0)] := by decide +kernel
+example : MReachableWF demoMultiHandle :=
+  ⟨4, 1, fun _ => 1, false, [[1], [1]], _, by decide, fun _ _ => Nat.one_pos, by decide, rfl⟩
 
 end Multi
 
